@@ -156,6 +156,23 @@ func (c *Ctx) disconnectCase() {
 		}
 	}
 	c.R.Count("SetWillFlag call sites in package service", n)
+	// inside the handler: no case other than DISCONNECT reaches a SetWillFlag call
+	g = c.handlerGraph()
+	isSet := nodeM(mMethod(pkgMessage, "ConnectMessage", "SetWillFlag"))
+	for i := range r.Cases {
+		cs := r.Cases[i]
+		if cs.Type == "DisconnectMessage" {
+			continue
+		}
+		if p := g.FindPath(caseEntry(g, cs), nil, isSet); p != nil {
+			label := cs.Type
+			if label == "" {
+				label = "default"
+			}
+			c.R.Bad(ruleP9, "case:"+label+":does-not-touch-will-flag", c.P.InstrPos(p[len(p)-1].Instr), "handling a "+label+" changes the will flag of the stored CONNECT: the will is suppressed (or armed) for a connection that did not send DISCONNECT", c.witness(g, p)...)
+		}
+	}
+	c.R.Ok(ruleP9, "handler:only-DISCONNECT-case-reaches-SetWillFlag", c.P.Pos(r.Handler.Pos()), "checked per handler case on the inlined graph")
 }
 
 func (c *Ctx) reachesOutsideCase(fn *ssa.Function) bool { return false }
@@ -190,11 +207,32 @@ func (c *Ctx) willArgument() {
 // sessionConnectAndWill: T5 {Cmsg, Will} and T6 (will mapping) in package sessions.
 func (c *Ctx) sessionConnectAndWill() {
 	c.R.Rule("T6-will-mapping", "the will PUBLISH is built from the stored CONNECT with all four of QoS, topic, payload and retain flag, each from the matching getter.")
-	writers := c.whoWrites("sessions", "Session", "Cmsg")
+	// the exported entry points that (directly or through helpers) store Session.Cmsg
+	var writers []*ssa.Function
+	seenW := map[*ssa.Function]bool{}
+	var lift func(fn *ssa.Function, d int)
+	lift = func(fn *ssa.Function, d int) {
+		if fn == nil || d > 3 {
+			return
+		}
+		if fn.Object() != nil && fn.Object().Exported() && fn.Signature.Recv() != nil {
+			if !seenW[fn] {
+				seenW[fn] = true
+				writers = append(writers, fn)
+			}
+			return
+		}
+		for _, site := range c.P.Callers(fn) {
+			lift(site.Parent(), d+1)
+		}
+	}
+	for _, fn := range c.whoWrites("sessions", "Session", "Cmsg") {
+		lift(fn, 0)
+	}
 	c.R.Count("functions storing Session.Cmsg", len(writers))
 	c.R.Floor("functions storing Session.Cmsg (Init, Update)", len(writers), 2)
 	for _, fn := range writers {
-		g := paths.New(c.P, fn, 0)
+		g := paths.New(c.P, fn, 2)
 		entry := []paths.Node{g.Entry()}
 		storeOf := func(field string, fresh string) func(paths.Node) bool {
 			return func(n paths.Node) bool {
@@ -202,7 +240,7 @@ func (c *Ctx) sessionConnectAndWill() {
 				if !ok {
 					return false
 				}
-				p := ir.PathOf(st.Addr)
+				p := framePath(n.F, st.Addr)
 				if len(p.Fields) != 1 || p.Fields[0] != field || p.Root != ssa.Value(fn.Params[0]) {
 					return false
 				}
@@ -244,7 +282,21 @@ func (c *Ctx) sessionConnectAndWill() {
 				}
 				rp := ir.PathOf(call.Common().Args[0])
 				if len(rp.Fields) == 0 || rp.Fields[len(rp.Fields)-1] != "Will" {
-					return false
+					// or the fresh PUBLISH that is stored into Session.Will
+					isWillObj := false
+					recv := ir.SeeThrough(call.Common().Args[0])
+					if refs := recv.Referrers(); refs != nil {
+						for _, ref := range *refs {
+							if st, ok := ref.(*ssa.Store); ok && st.Val == recv {
+								if sp := ir.PathOf(st.Addr); len(sp.Fields) > 0 && sp.Fields[len(sp.Fields)-1] == "Will" {
+									isWillObj = true
+								}
+							}
+						}
+					}
+					if !isWillObj {
+						return false
+					}
 				}
 				gc, ok := ir.SeeThrough(call.Common().Args[1]).(*ssa.Call)
 				if !ok || !ir.IsMethod(gc.Common(), pkgMessage, "ConnectMessage", getter) {
@@ -268,7 +320,7 @@ func (c *Ctx) sessionConnectAndWill() {
 				if !ok {
 					return false
 				}
-				p := ir.PathOf(st.Addr)
+				p := framePath(n.F, st.Addr)
 				k, isK := st.Val.(*ssa.Const)
 				return len(p.Fields) == 1 && p.Fields[0] == "Will" && isK && k.IsNil()
 			}
